@@ -71,6 +71,54 @@ for v in res['violations']:
     c.report('segment:' + v['signature'], v['detail'], {'behaviour': b, 'harness': 'stor/segapi'})
 c.log('segment level: %d behaviours with snapshot + housekeeping steps replayed (%d steps)' % (res['behaviours'], res['steps']))
 
+# ---- segment level under real concurrency: snapshots racing with queries (reopen), idle reclaim, retention and forced
+# delete on one TSDB; the closed path is bracketed by SnapClosedBegin/End events (hooks, under the segment mutex in the
+# pinned code) and the merged trace must be a behaviour of SegHold.tla: nothing reopens, closes or deletes a segment
+# while its directory is being hard-linked; and TakeFileSnapshot never fails ----
+import segstress_common as ssc
+sruns, smillis = (1, 2500) if c.quick else (6, 5000)
+sfound, sclosed, sstats_seg = {}, 0, {}
+for i in range(sruns):
+    sr, slines = ssc.stress(c, stor, i, smillis, 'c19')
+    if sr['inconclusive']:
+        c.inconclusive('; '.join(sr['inconclusive'][:3]))
+    for k2, v2 in sr['stats'].items():
+        sstats_seg[k2] = sstats_seg.get(k2, 0) + v2
+    sclosed += sum(1 for x in slines if '"SnapClosedBegin"' in x)
+    for vv in sr['violations']:
+        if vv['signature'].startswith('snapshot-failed'):
+            sfound.setdefault('segment:snapshot-failed-under-concurrency', (vv['detail'], slines[-60:]))
+    k = ssc.rejected_at(c, slines, 'c19h')
+    if k is not None and k < len(slines):
+        ev = json.loads(slines[k])
+        if ev.get('event') in ('SnapClosedBegin', 'SnapClosedEnd') or ev.get('seg') in ssc.copying_at(slines, k):
+            sfound.setdefault('segment:closed-copy-disturbed:' + ev.get('event', '?'), ('event %d of %d rejected by SegHoldTrace.tla: %s' % (k + 1, len(slines), slines[k]), slines[max(0, k - 60): k + 1]))
+    if i == 0:
+        # binding self-test: a delete moved inside a closed-path copy must be rejected
+        cb = [j for j, x in enumerate(slines) if '"SnapClosedBegin"' in x]
+        if cb:
+            j = cb[len(cb) // 2]
+            mut = slines[: j + 1] + [json.dumps({'event': 'SegDeleted', 'seg': json.loads(slines[j])['seg']})] + slines[j + 1:]
+            if ssc.rejected_at(c, mut, 'c19hs') is None:
+                c.inconclusive('binding self-test failed: a delete inside a closed-path copy was accepted')
+if sclosed == 0:
+    c.inconclusive('segment stress: the closed path of TakeFileSnapshot was never taken')
+for sig, (detail, ctx) in sfound.items():
+    again = False
+    for j in range(6):
+        sr, slines = ssc.stress(c, stor, 100 + j, smillis, 'c19')
+        k = ssc.rejected_at(c, slines, 'c19h')
+        hit = any(v['signature'].startswith('snapshot-failed') for v in sr['violations']) if 'snapshot-failed' in sig else (
+            k is not None and k < len(slines) and (json.loads(slines[k]).get('event', '').startswith('SnapClosed') or json.loads(slines[k]).get('seg') in ssc.copying_at(slines, k)))
+        if hit:
+            again = True
+            break
+    if not again:
+        c.unreproduced('concurrency violation %s seen once but not again in 6 further runs: %s' % (sig, detail))
+        continue
+    c.report(sig, detail, {'trace_tail': ctx, 'harness': 'stor/segstress'})
+c.log('segment level, concurrent: %d run(s), %d closed-path copies bracketed in the validated trace, %s' % (sruns, sclosed, sstats_seg))
+
 # ---- tsTable level: concurrent runs, every copy inspected and opened, trace validated ----
 runs = 2 if c.quick else 8
 rnd = random.Random(c.seed)
